@@ -19,8 +19,8 @@ func init() {
 		ID:    "C12",
 		Title: "Sort-key encodings preserve order; series identity is unambiguous",
 		Decides: "the series-key escaping is consistent: a raw (unescaped) copy of a value in marshalEntityValue happens only after the value was searched for BOTH special bytes, the byte set escaped by the slow path equals the set the fast path searches for and the set unmarshalEntityValue treats specially, and every marshalled value ends with the delimiter; " +
-			"tag-value marshal and unmarshal handle the same value types; a decoded byte-slice value never aliases the caller's scratch buffer; series keys are only built through marshalEntityValue.",
-		NotDecided: "order preservation of Int64ToBytes / Float64ToOrderedBytes (bit-level arithmetic; the -0.0 case), injectivity as such, grouping keys built by String().",
+			"the ordered float encoder picks its branch from the bit pattern and never by a float comparison (IEEE comparison cannot tell -0.0 from 0 nor place NaN, while the decoder branches on the top bit); tag-value marshal and unmarshal handle the same value types; a decoded byte-slice value never aliases the caller's scratch buffer; series keys are only built through marshalEntityValue.",
+		NotDecided: "order preservation of Int64ToBytes / Float64ToOrderedBytes as bit-level arithmetic (only the branch selector of the float encoder is checked), the field names handed to the search library's sort parser (F48), injectivity as such, grouping keys built by String().",
 		Technique:  "must-precede on resolved calls, constant-set agreement over compared bytes, case-set agreement, SSA alias check of returned slices, who-may-call",
 		Run:        runC12,
 	})
@@ -173,6 +173,35 @@ func runC12(c *core.Ctx) {
 			r.Undecide(rule, ssax.FuncName(f), r.fpos(f), "no BinaryData assignment found")
 		}
 	}
+
+	// the ordered float encoder and its decoder must split the value space the same way: the decoder looks at the
+	// top bit, so the encoder must too. Any IEEE comparison of the float itself treats -0.0 as 0 and is false for
+	// NaN, so a branch selected by one cannot agree with the decoder (F49).
+	rule = "c12.ordered-float-branches-on-bits"
+	if f := r.fn(rule, "pkg/convert", "Float64ToOrderedBytes"); f != nil {
+		isFloat := func(v ssa.Value) bool {
+			b, ok := v.Type().Underlying().(*types.Basic)
+			return ok && b.Info()&types.IsFloat != 0
+		}
+		bad := ssax.Find(f, func(in ssa.Instruction) bool {
+			b, ok := in.(*ssa.BinOp)
+			if !ok {
+				return false
+			}
+			switch b.Op {
+			case token.LSS, token.LEQ, token.GTR, token.GEQ, token.EQL, token.NEQ:
+				return isFloat(b.X) || isFloat(b.Y)
+			}
+			return false
+		})
+		con := ssax.FuncName(f) + ": branch selected from the bit pattern"
+		if len(bad) > 0 {
+			r.Violate(rule, con, r.pos(bad[0]), "the encoder compares the float value itself: -0.0 compares equal to 0 and NaN compares false, so they take a branch the decoder (which tests the top bit) does not invert; -0.0 then sorts below -Inf and decodes to NaN")
+		} else {
+			r.Hold(rule, con, r.fpos(f), "")
+		}
+	}
+	r.Floor(rule, 1)
 
 	// series keys only through marshalEntityValue
 	if f := r.fn("c12.single-key-builder", pb, "marshalEntityValue"); f != nil {
